@@ -459,25 +459,57 @@ def _simple_arg(e) -> bool:
     return False
 
 
+def _contains_return(stmts) -> bool:
+    for st in stmts:
+        for n in ast.walk(st):
+            if isinstance(n, ast.Return):
+                return True
+    return False
+
+
+_RET = "__inl_result__"
+
+
+def _tail_form(stmts, budget):
+    """Rewrite a statement list whose `return`s are all in tail position (last statement, or inside `if` branches that are
+    followed — possibly after duplication of the rest — by tail positions) into a list without `return`, every path ending
+    in `__inl_result__ = <value>`.  None when a return sits in a loop / try / with, or the rewriting would grow too much."""
+    out = []
+    for i, st in enumerate(stmts):
+        if isinstance(st, ast.Return):
+            return out + [ast.Assign(targets=[ast.Name(id=_RET, ctx=ast.Store())], value=st.value if st.value is not None else ast.Constant(None))]
+        if isinstance(st, ast.If) and _contains_return([st]):
+            rest = stmts[i + 1:]
+            budget[0] -= len(rest)
+            if budget[0] < 0:
+                return None
+            a = _tail_form(list(st.body) + [copy.deepcopy(r) for r in rest], budget)
+            b = _tail_form(list(st.orelse) + [copy.deepcopy(r) for r in rest], budget)
+            if a is None or b is None:
+                return None
+            return out + [ast.If(test=st.test, body=a, orelse=b)]
+        if _contains_return([st]):
+            return None
+        out.append(st)
+    return out + [ast.Assign(targets=[ast.Name(id=_RET, ctx=ast.Store())], value=ast.Constant(None))]
+
+
 def _straight_line(fn) -> Optional[List[ast.stmt]]:
-    """body of a small helper that is a sequence of simple statements ending in its only `return` (or without one)"""
+    """body of a small private helper in a form that can be spliced into a statement list: simple and compound statements,
+    every `return` in tail position (rewritten to an assignment of the result), no recursion, no generator, no nested
+    definitions, parameters never re-bound"""
     if not isinstance(fn, ast.FunctionDef) or fn.decorator_list:
         return None
     a = fn.args
     if a.vararg or a.kwonlyargs or a.posonlyargs:
         return None
     body = [s for s in fn.body if not (isinstance(s, ast.Expr) and isinstance(s.value, ast.Constant))]
-    if not (2 <= len(body) <= 8):
+    n_stmts = sum(1 for st in body for n in ast.walk(st) if isinstance(n, ast.stmt))
+    if len(body) < 2 or n_stmts > 40:
         return None  # one-statement helpers are handled by (1)
-    for i, st in enumerate(body):
-        last = i == len(body) - 1
-        if isinstance(st, ast.Return):
-            if not last:
-                return None
-        elif not isinstance(st, (ast.Assign, ast.AugAssign, ast.Expr)):
-            return None
+    for st in body:
         for n in ast.walk(st):
-            if isinstance(n, (ast.Yield, ast.YieldFrom, ast.Await, ast.NamedExpr, ast.Lambda)) or isinstance(n, FUNC):
+            if isinstance(n, (ast.Yield, ast.YieldFrom, ast.Await, ast.NamedExpr, ast.Lambda, ast.Global, ast.Nonlocal)) or isinstance(n, FUNC) or isinstance(n, ast.ClassDef):
                 return None
             if isinstance(n, ast.Name) and n.id in (fn.name, "super", "locals", "vars", "globals"):
                 return None
@@ -496,7 +528,8 @@ def _straight_line(fn) -> Optional[List[ast.stmt]]:
                     par_ok = any(isinstance(c, ast.Call) and any(k.arg is None and k.value is n for k in c.keywords) for c in ast.walk(st))
                     if not par_ok:
                         return None
-    return body
+    tf = _tail_form([copy.deepcopy(x) for x in body], [30])
+    return tf
 
 
 _INL_COUNTER = [0]
@@ -569,13 +602,16 @@ def _inline_call(fn, body, call: ast.Call, receiver, caller_stored: Set[str]):
             return c
 
     out = []
-    result = None
+    locals_.add(_RET)
     for st in body:
-        st2 = R().visit(copy.deepcopy(st))
-        if isinstance(st2, ast.Return):
-            result = st2.value
-        else:
-            out.append(st2)
+        out.append(R().visit(copy.deepcopy(st)))
+    result = ast.Name(id=_RET + tag, ctx=ast.Load())
+    # straight-line bodies: fold the trailing result assignment back into an expression
+    if out and isinstance(out[-1], ast.Assign) and isinstance(out[-1].targets[0], ast.Name) and out[-1].targets[0].id == _RET + tag:
+        result = out[-1].value
+        out = out[:-1]
+        if isinstance(result, ast.Constant) and result.value is None and not _contains_return(fn.body):
+            result = None
     for n in pre + out + ([result] if result is not None else []):
         for x in ast.walk(n):
             if isinstance(x, (ast.expr, ast.stmt)):
@@ -677,6 +713,7 @@ def inline_straight_line_helpers(tree: ast.Module, keep=frozenset()) -> int:
 
 
 # ---------------------------------------------------------------------------------------------- package facts for (8), (9)
+_MUTATORS = {"append", "extend", "insert", "pop", "remove", "clear", "sort", "reverse", "update", "add", "discard", "setdefault", "popitem"}
 _COMMON_EXTERNAL = {"append", "index", "copy", "get", "pop", "add", "update", "find", "count", "strip", "split", "join", "choice", "sum", "items", "keys", "values", "format"}
 
 
@@ -686,7 +723,7 @@ def package_facts(trees) -> dict:
     stable_attrs: attribute names that some constructor establishes through `self.X = …` and that nothing in the package
     stores, deletes or updates in place outside constructors (so `self.X` denotes the same object for the object's life)."""
     sigs: Dict[str, list] = {}
-    established, stored_elsewhere, callables = set(), set(), set()
+    established, stored_elsewhere, callables, mutated = set(), set(), set(), set()
     for tree in trees:
         nested_names = set()
         for node in ast.walk(tree):
@@ -734,10 +771,12 @@ def package_facts(trees) -> dict:
                         stored_elsewhere.add(tgt.attr)
                 if isinstance(n, ast.AugAssign) and isinstance(n.target, ast.Attribute) and not (ctor and isinstance(n.target.value, ast.Name) and n.target.value.id == "self"):
                     stored_elsewhere.add(n.target.attr)
-                if isinstance(n, (ast.Assign, ast.AugAssign, ast.Delete)):
+                if isinstance(n, (ast.Assign, ast.AugAssign, ast.Delete)) and not ctor:
                     for t in (n.targets if isinstance(n, (ast.Assign, ast.Delete)) else [n.target]):
-                        if isinstance(t, ast.Subscript) and isinstance(t.value, ast.Attribute) and not ctor:
-                            pass  # element stores do not re-bind the attribute itself
+                        if isinstance(t, ast.Subscript) and isinstance(t.value, ast.Attribute):
+                            mutated.add(t.value.attr)  # element store / delete: the container changes
+                if isinstance(n, ast.Call) and isinstance(n.func, ast.Attribute) and n.func.attr in _MUTATORS and isinstance(n.func.value, ast.Attribute) and not ctor:
+                    mutated.add(n.func.value.attr)
         # class-level names are not per-object data
     signatures = {}
     for k, v in sigs.items():
@@ -745,7 +784,8 @@ def package_facts(trees) -> dict:
             continue
         if len(set(v)) == 1:
             signatures[k] = list(v[0])
-    return {"signatures": signatures, "stable_attrs": (established - stored_elsewhere) - callables}
+    stable = (established - stored_elsewhere) - callables
+    return {"signatures": signatures, "stable_attrs": stable, "frozen_attrs": stable - mutated}
 
 
 # ---------------------------------------------------------------------------------------------- (8) keyword arguments of package calls
@@ -820,7 +860,16 @@ def propagate_stable_aliases(tree: ast.Module, facts) -> int:
             block, st = sites[0]
             # every use comes after the assignment: the assignment is a top-level statement and no use precedes it
             idx = block.index(st)
-            if any(_loads(prev, name) for prev in block[:idx]):
+            early_defs = {prev.name for prev in block[:idx] if isinstance(prev, FUNC)}
+            bad = False
+            for prev in block[:idx]:
+                if isinstance(prev, FUNC):
+                    continue  # a nested function reads the name when it is *called*
+                if _loads(prev, name):
+                    bad = True
+                if any(isinstance(c, ast.Call) and isinstance(c.func, ast.Name) and c.func.id in early_defs for c in ast.walk(prev)):
+                    bad = True  # a closure that may read the name runs before the assignment
+            if bad:
                 continue
             # `self` must still mean the same object where the alias is used: no nested function re-binds self
             rebinding = any(isinstance(n, FUNC) and n is not fn and any(a.arg == "self" for a in n.args.args) for n in ast.walk(fn))
@@ -833,6 +882,121 @@ def propagate_stable_aliases(tree: ast.Module, facts) -> int:
                 block[i] = sub.visit(other)
             block.remove(st)
             total += 1
+    if total:
+        ast.fix_missing_locations(tree)
+    return total
+
+
+# ---------------------------------------------------------------------------------------------- (2') pure single-assignment temporaries
+def propagate_pure_temporaries(tree: ast.Module, facts) -> int:
+    """`t = <pure expression>` at the top level of a function, `t` stored exactly once, every operand *frozen* for the rest
+    of the function (a parameter or single-assignment local that is never re-bound or changed in place in the function;
+    an attribute chain below `self` whose attributes are established by constructors only and whose containers are never
+    changed in place anywhere in the package): every later use of `t` — also inside nested functions that are not called
+    before the assignment — is written as the expression, and the assignment is dropped."""
+    frozen_attrs = (facts or {}).get("frozen_attrs", set())
+    total = 0
+
+    def outer_functions(node):
+        for st in getattr(node, "body", []):
+            if isinstance(st, FUNC):
+                yield st
+            elif isinstance(st, ast.ClassDef):
+                yield from outer_functions(st)
+
+    def mutated_in(fn, name) -> bool:
+        for n in ast.walk(fn):
+            if isinstance(n, ast.Call) and isinstance(n.func, ast.Attribute) and n.func.attr in _MUTATORS and isinstance(n.func.value, ast.Name) and n.func.value.id == name:
+                return True
+            if isinstance(n, (ast.Assign, ast.AugAssign, ast.Delete)):
+                for t in (n.targets if isinstance(n, (ast.Assign, ast.Delete)) else [n.target]):
+                    b = t
+                    while isinstance(b, (ast.Subscript, ast.Attribute)):
+                        b = b.value
+                    if isinstance(b, ast.Name) and b.id == name and b is not t:
+                        return True
+                    if isinstance(n, ast.AugAssign) and isinstance(t, ast.Name) and t.id == name:
+                        return True
+        return False
+
+    def operands_frozen(fn, e, params) -> bool:
+        for n in ast.walk(e):
+            if isinstance(n, ast.Name) and isinstance(n.ctx, ast.Load):
+                if n.id in PURE_FUNCS or n.id in ("self", "np", "True", "False", "None"):
+                    continue
+                k = _stores(fn, n.id)
+                if n.id in params:
+                    if k != 1 or mutated_in(fn, n.id):  # the parameter itself counts as one store
+                        return False
+                elif k != 1 or mutated_in(fn, n.id):
+                    return False
+            if isinstance(n, ast.Attribute):
+                if isinstance(n.ctx, ast.Load) and not (isinstance(n.value, ast.Name) and n.value.id == "np"):
+                    # method of a pure call is checked by _pure; data attributes must be frozen and rooted at self
+                    par_call = False
+                    if n.attr in PURE_METHODS:
+                        par_call = True
+                    if not par_call:
+                        root = n
+                        while isinstance(root, ast.Attribute):
+                            if root.attr not in frozen_attrs and not (root is n and False):
+                                return False
+                            root = root.value
+                        if not (isinstance(root, ast.Name) and root.id == "self"):
+                            return False
+        return True
+
+    def do_function(fn):
+        nonlocal total
+        params = {a.arg for a in fn.args.posonlyargs + fn.args.args + fn.args.kwonlyargs}
+        changed = True
+        while changed:
+            changed = False
+            block = fn.body
+            for st in list(block):
+                if not (isinstance(st, ast.Assign) and len(st.targets) == 1 and isinstance(st.targets[0], ast.Name)):
+                    continue
+                name = st.targets[0].id
+                v = st.value
+                if name in params or _stores(fn, name) != 1 or _loads(v, name) or not _pure(v) or isinstance(v, (ast.Constant, ast.Name, ast.List, ast.Dict, ast.Set, ast.ListComp, ast.DictComp, ast.SetComp, ast.GeneratorExp)):
+                    continue
+                if not any(isinstance(n, ast.Call) for n in ast.walk(v)) and not isinstance(v, (ast.Compare, ast.BoolOp)):
+                    continue  # only computed facts (len(...), comparisons): plain arithmetic temporaries are left alone
+                if sum(1 for _ in ast.walk(v)) > 14 or mutated_in(fn, name):
+                    continue
+                if not operands_frozen(fn, v, params):
+                    continue
+                idx = block.index(st)
+                early_defs = {prev.name for prev in block[:idx] if isinstance(prev, FUNC)}
+                bad = False
+                for prev in block[:idx]:
+                    if isinstance(prev, FUNC):
+                        continue
+                    if _loads(prev, name) or any(isinstance(c, ast.Call) and isinstance(c.func, ast.Name) and c.func.id in early_defs for c in ast.walk(prev)):
+                        bad = True
+                if bad or not any(_loads(o, name) for o in block if o is not st):
+                    continue
+                # operands assigned later than the temporary would change its meaning: require their single store to precede
+                later_stores = set()
+                for o in block[idx + 1:]:
+                    if not isinstance(o, FUNC):
+                        later_stores |= {n.id for n in ast.walk(o) if isinstance(n, ast.Name) and isinstance(n.ctx, (ast.Store, ast.Del))}
+                if later_stores & {n.id for n in ast.walk(v) if isinstance(n, ast.Name)}:
+                    continue
+                sub = _Subst({name: v})
+                for i, other in enumerate(block):
+                    if other is not st:
+                        block[i] = sub.visit(other)
+                block.remove(st)
+                total += 1
+                changed = True
+                break
+        for st in fn.body:
+            if isinstance(st, FUNC):
+                do_function(st)
+
+    for fn in outer_functions(tree):
+        do_function(fn)
     if total:
         ast.fix_missing_locations(tree)
     return total
@@ -864,6 +1028,8 @@ def canonical_sum(tree: ast.Module) -> int:
 def normalise(tree: ast.Module, keep=frozenset(), facts=None) -> Dict[str, int]:
     k8 = positional_package_arguments(tree, facts)
     k9 = propagate_stable_aliases(tree, facts)
+    k9 += propagate_pure_temporaries(tree, facts)
+    k9 += propagate_stable_aliases(tree, facts)
     k10 = canonical_sum(tree)
     a = inline_trivial_helpers(tree)
     a2 = inline_straight_line_helpers(tree, keep)
